@@ -22,8 +22,10 @@ EXPLANATION = (
     "whenever it returns False, update_time assigns the time-step counter on every path, to counter+1 or to the "
     "position of planting_dates[season_counter+1] (assumptions A-5, A-6). C07.c: every daily row is indexed by and "
     "carries the time-step counter; the dap column carries the state's dap. C07.d: the planting / harvest year lists "
-    "derived at initialisation are not mutated in place while another name aliases the same list. NOT decided: the "
-    "planting / harvest year arithmetic itself and the maturity day (numeric).")
+    "derived at initialisation are not mutated in place while another name aliases the same list. C07.e: crop_mature is set only under `<clock> >= crop.Maturity` "
+    "where the clock's normal form is the state's own days-after-planting (under CalendarType == 1) or cumulative degree days (under "
+    "CalendarType == 2) of that day - not a delay-adjusted or otherwise shifted clock - and both calendar types are covered. NOT decided: the "
+    "planting / harvest year arithmetic itself (numeric).")
 
 L = frozenset
 CLOCK_FIELDS = {"time_step_counter", "step_start_time", "step_end_time", "season_counter"}
@@ -253,9 +255,84 @@ def rule_d(chk, prog):
     chk.floor("C07.d", sites, 3, "in-place list mutations in the initialisation phase")
 
 
+def rule_e(chk, prog):
+    """a season ends on the first day the crop reaches maturity: crop_mature is set exactly when the state's own (unadjusted) clock -
+    days after planting in calendar mode, cumulative degree days in thermal mode - has reached crop.Maturity"""
+    from .. import affine as A
+    from ..symb import Sym
+    from ..cp import step_local
+    step = prog.func(STEP_FN)
+    S = step_local(prog, "state")
+    sym = Sym(prog, step, force={"growing_season is True": True, "growing_season is False": False})
+    cfg = sym.cfg
+    stores_ = [n for n in cfg.live_nodes() if isinstance(n.ast, ast.Assign) and isinstance(n.ast.targets[0], ast.Attribute)
+               and n.ast.targets[0].attr == "crop_mature" and isinstance(n.ast.value, ast.Constant) and n.ast.value.value is True]
+    chk.floor("C07.e", len(stores_), 1, "stores crop_mature = True in the step")
+    CLOCK = {1: "dap", 2: "gdd_cum"}
+    for n in stores_:
+        flow = flow_of(step)
+        def deciders(nid, depth=0):
+            out = set(cfg.transitive_control_deps(nid))
+            if depth < 3:
+                for t, l in list(out):
+                    ta = cfg.nodes[t].ast
+                    if cfg.nodes[t].kind == "test" and isinstance(ta, ast.Name) and l is True:
+                        # a boolean flag: the tests deciding its `= True` definitions decide this node too
+                        for d in flow.defs_reaching(ta.id, t):
+                            da = cfg.nodes[d].ast if d != ENTRY else None
+                            if isinstance(da, ast.Assign) and isinstance(da.value, ast.Constant) and da.value.value is True:
+                                out |= deciders(d, depth + 1)
+            return out
+        deps = deciders(n.id)
+        tests = [(t, l) for t, l in deps if cfg.nodes[t].kind == "test" and isinstance(cfg.nodes[t].ast, ast.Compare)
+                 and any(isinstance(x, ast.Attribute) and x.attr == "Maturity" for x in ast.walk(cfg.nodes[t].ast))]
+        construct = "crop_mature = True"
+        if not tests:
+            chk.violation("C07.e", STEP_FN, construct, "crop_mature is set without comparing the season's clock with crop.Maturity", loc=step.loc(n.ast))
+            continue
+        seen_modes = set()
+        for t, l in tests:
+            c = cfg.nodes[t].ast
+            cons = f"{norm(c)} decides crop_mature"
+            if len(c.ops) == 1 and ((l is False and isinstance(c.ops[0], ast.GtE)) or (l is True and isinstance(c.ops[0], ast.Lt))):
+                continue        # the "not yet mature" edge of a test, on the way to the other calendar type's test
+            if not (len(c.ops) == 1 and ((l is True and isinstance(c.ops[0], ast.GtE)) or (l is False and isinstance(c.ops[0], ast.Lt)))
+                    and isinstance(c.comparators[0], ast.Attribute) and c.comparators[0].attr == "Maturity"):
+                chk.violation("C07.e", STEP_FN, cons, "the maturity test is not `<clock> >= crop.Maturity`", loc=step.loc(c))
+                continue
+            if t not in sym.state_in:
+                chk.error("C07.e: maturity test unreachable in the in-season valuation")
+                continue
+            st = sym.state_in[t]
+            left = sym.nf(c.left, st)
+            mode = None
+            for k, fld in CLOCK.items():
+                own = sym.nf(ast.Attribute(value=ast.Name(id=S, ctx=ast.Load()), attr=fld, ctx=ast.Load()), st)
+                if A.equal(left, own):
+                    mode = k
+            if mode is None:
+                chk.violation("C07.e", STEP_FN, cons, f"the clock compared with crop.Maturity is {A.text(left)[:100]}, not the state's days after planting / "
+                              "cumulative degree days of the day: the season ends later (or earlier) than the first day maturity is reached",
+                              loc=step.loc(c))
+                continue
+            # the comparison must sit under the matching calendar-type test
+            ct = [(norm(cfg.nodes[tt].ast), ll) for tt, ll in cfg.transitive_control_deps(t) if cfg.nodes[tt].kind == "test"
+                  and "CalendarType" in norm(cfg.nodes[tt].ast)]
+            want = (f"CalendarType == {mode}", True)
+            if any(txt.endswith(want[0]) and ll is True for txt, ll in ct):
+                chk.ok("C07.e", STEP_FN, cons, f"state's {CLOCK[mode]} under CalendarType == {mode}")
+                seen_modes.add(mode)
+            else:
+                chk.violation("C07.e", STEP_FN, cons, f"{CLOCK[mode]} is compared with crop.Maturity outside the branch CalendarType == {mode} ({ct})",
+                              loc=step.loc(c))
+        if seen_modes != {1, 2} and not any(v["rule"] == "C07.e" for v in chk.violations):
+            chk.violation("C07.e", STEP_FN, construct, f"maturity is tested for calendar type(s) {sorted(seen_modes)} only", loc=step.loc(n.ast))
+
+
 def run(chk, prog, tier):
     rule_a(chk, prog)
     rule_b(chk, prog)
     rule_c(chk, prog)
     rule_d(chk, prog)
+    rule_e(chk, prog)
     chk.exhaustive = True
